@@ -111,6 +111,17 @@ def run(ctx):
             ml += ["C %s %s" % (k, " ".join(t)) for _, _, t in cases]
         mout = vlib.run_lines(model_exe, ml)
         mres = {"P": mout[nset:nset + len(cases)], "T": mout[nset + len(cases):nset + 2 * len(cases)], "R": mout[nset + 2 * len(cases):nset + 3 * len(cases)]}
+        # hypotheses of C08_any_bracketing on the tables the loader models build for this file, evaluated with the extracted,
+        # proved-sound checkers (TInv: LM/InvCheck.tinv_check; rest = prob and "extension bit only on contexts": LM/FlattenCheck)
+        for tok in mout[nset - 1].split():
+            if tok[:4] in ("invP", "invT", "flat"):
+                stats["hyp_" + tok] = stats.get("hyp_" + tok, 0) + 1
+        for kd, nm in (("P", "probing"), ("T", "trie")):
+            toks = mout[nset - 1].split()
+            if ("flat%s=0" % kd) in toks or ("inv%s=0" % kd) in toks:
+                problems.append(("correspondence:flattening-hypotheses:" + nm,
+                                 "the table the %s loader model builds for an estimator-like file does not satisfy the hypotheses of C08_any_bracketing (%s)" % (nm, mout[nset - 1]),
+                                 dict(base), False))
         for typ in ["probing", "rest", "trie", "atrie"] + (["qtrie"] if not ctx.quick else []):
             cmd = [lmq, sess.arpa, typ, sess.vocab, "tmp=" + sess.dir + "/"]
             rc, out, err = vlib.sh(cmd, input=("\n".join(lines_impl) + "\n").encode(), timeout=300)
